@@ -572,6 +572,9 @@ func (ego *object) GetTF(tf string) any {
 	tf = tf[1:]
 	dot := strings.Index(tf, ".")
 	hash := strings.Index(tf, "#")
+	if dot == 0 || hash == 0 {
+		panic(fmt.Sprintf("'%s' contains an empty key", tf))
+	}
 	if dot > 0 && (hash < 0 || dot < hash) {
 		key := tf[:dot]
 		return ego.Ego().GetObject(key).GetTF(tf[dot:])
@@ -624,6 +627,9 @@ func (ego *object) UnsetTF(tf string) Object {
 	tf = tf[1:]
 	dot := strings.Index(tf, ".")
 	hash := strings.Index(tf, "#")
+	if dot == 0 || hash == 0 {
+		panic(fmt.Sprintf("'%s' contains an empty key", tf))
+	}
 	if dot > 0 && (hash < 0 || dot < hash) {
 		key := tf[:dot]
 		object := ego.GetObject(key)
@@ -646,6 +652,9 @@ func (ego *object) TypeOfTF(tf string) Type {
 	tf = tf[1:]
 	dot := strings.Index(tf, ".")
 	hash := strings.Index(tf, "#")
+	if dot == 0 || hash == 0 {
+		return TypeUndefined
+	}
 	if dot > 0 && (hash < 0 || dot < hash) {
 		key := tf[:dot]
 		if !ego.ptr.KeyExists(key) || ego.ptr.TypeOf(key) != TypeObject {
